@@ -7,6 +7,7 @@ from torch.nn import Module as TModule
 
 from .. import settings
 from .prior import Prior
+from .utils import _bufferize_attributes
 
 
 class LKJCholeskyFactorPrior(Prior, LKJCholesky):
@@ -31,11 +32,34 @@ class LKJCholeskyFactorPrior(Prior, LKJCholesky):
     def __init__(self, n, eta, validate_args=False, transform=None):
         TModule.__init__(self)
         LKJCholesky.__init__(self, dim=n, concentration=eta, validate_args=validate_args)
+        _bufferize_attributes(self, ("concentration",))
         self.n = self.dim
-        self.eta = self.concentration
         self._transform = transform
 
+    @property
+    def eta(self):
+        return self.concentration
+
+    def _load_from_state_dict(
+        self, state_dict, prefix, local_metadata, strict, missing_keys, unexpected_keys, error_msgs
+    ):
+        # The concentration buffer is new, and so may not be present in older state dicts (the value passed to the
+        # constructor is kept then). Because of this, we won't have strict-mode on when loading this module
+        return super()._load_from_state_dict(
+            state_dict=state_dict,
+            prefix=prefix,
+            local_metadata=local_metadata,
+            strict=False,
+            missing_keys=missing_keys,
+            unexpected_keys=unexpected_keys,
+            error_msgs=error_msgs,
+        )
+
     # TODO: change from sample to rsample if pytorch #69281 goes in providing rsample method
+    def sample(self, sample_shape=torch.Size()):
+        # LKJCholesky sets its sampler up from the concentration passed to the constructor;
+        # the concentration is a buffer here and may have been loaded from a state dict since
+        return LKJCholesky(self.dim, self.concentration, validate_args=False).sample(sample_shape)
 
 
 class LKJPrior(LKJCholeskyFactorPrior):
